@@ -341,7 +341,14 @@ def shim(ck):
         rc, runs = run_rand(exe, sc, ck.seed * 100003 + si, nrand)
         ok_runs = [r for r in runs if r["ev"]]
         try:
-            res, tl = replay_on_model(sc, ok_runs, check_inv=(not quick or os.environ.get("C10_INV") == "1" or len(sc["pre"]) < 100))
+            if len(sc["pre"]) < 100 or os.environ.get("C10_INV") == "1":
+                res, tl = replay_on_model(sc, ok_runs, check_inv=True)
+            else:
+                # large tables: evaluating the invariant on every state is expensive; do it for a few runs per scenario
+                k = 0 if quick else 2
+                res, tl = replay_on_model(sc, ok_runs[:k], check_inv=True) if k else ([], 0)
+                res2, tl2 = replay_on_model(sc, ok_runs[k:], check_inv=False)
+                res, tl = res + res2, tl + tl2
         except common.BuildError as e:
             res, tl = ["model driver failed: %s" % str(e)[-300:]] * len(ok_runs), 0
         tol += tl
@@ -429,7 +436,7 @@ def run(ck):
         "(Props/C10.lean, none of them _partial); sequentially consistent interleavings (the shim serialises accesses; release/acquire "
         "visibility of node contents is not modelled)",
         "the inductive invariant used by the proofs (Proofs/C10/Inv.lean, Inv2.lean) is additionally evaluated by the model driver on every "
-        "state of the replayed traces (all states for small tables in the quick tier, all tables in the thorough tier)",
+        "state of the replayed traces for small tables, and for a sample of the runs on large tables in the thorough tier",
         "the correspondence model <-> implementation is sampled (explored scenarios and schedules), not proved",
         "not modelled: rehash(), clear(), swap, copy/move, iterators and ranges (not concurrency-safe by contract), internal_fast_find, "
         "allocation failure / exceptions, the mapped value's own thread safety, backoff timing",
